@@ -37,8 +37,27 @@ pub struct Case {
 }
 
 fn dyadic(level: f64) -> bool {
-    // 2L-1 and 1-(1-L')/2 are exact when L is a multiple of 2^-20 (all grid dyadics are)
-    (level * 1048576.0).fract() == 0.0
+    // 2L-1 and 1-(1-L')/2 are exact when L is a multiple of 2^-20 (all grid dyadics are) or when L = 1 - 2^-j
+    // with j <= 50 (then 1-L, 2L-1 = 1-2^-(j-1), (1-L')/2 and (1+L')/2 are all representable)
+    let tail = 1.0 - level;
+    (level * 1048576.0).fract() == 0.0 || (tail >= 8.9e-16 && tail.log2().fract() == 0.0 && 1.0 - tail == level)
+}
+
+/// Far-tail levels (all valid confidence levels: anything strictly inside (0,1) is): 1 - 2^-j, for which the
+/// 2L-1 identity is exact, decimal tails down to 1e-10, and small levels. A clamp, a table or an unpolished
+/// quantile that only matters beyond the customary range shows up here and nowhere on [0.001, 0.9999].
+pub fn far_tail_levels() -> Vec<f64> {
+    let mut v = vec![];
+    for j in [14, 17, 24, 30, 31, 34, 40, 47] {
+        v.push(1.0 - (2.0f64).powi(-j));
+    }
+    for t in [1e-5, 1e-6, 1e-7, 1e-8, 4e-9, 1e-9, 1e-10] {
+        v.push(1.0 - t);
+    }
+    for t in [1e-4, 1e-6, 1e-9, 1e-12] {
+        v.push(t);
+    }
+    v
 }
 
 fn to_interval(o: &Obs) -> Interval<f64> {
@@ -197,8 +216,15 @@ fn judge_producer(p: &Producer, levels: &[f64], case: &dyn Fn() -> Value, l: &mu
                     Some(o) => *o,
                     None => continue,
                 };
-                let gap = (kind.target(sorted[lj]) - kind.target(lv)).abs();
-                if gap < 1e-3 {
+                let (t1, t2) = (kind.target(lv), kind.target(sorted[lj]));
+                let gap = (t2 - t1).abs();
+                // in the far tails a tiny step in probability is a large step of the quantile: pairs whose tail
+                // probabilities differ by a factor of two or more are judged however close they are
+                let tail_ratio = if t1 >= 0.5 { (1.0 - t1) / (1.0 - t2) } else if t2 <= 0.5 { t2 / t1 } else { 1.0 };
+                if gap < 1e-3 && tail_ratio >= 2.0 {
+                    l.count("far-tail level pair judged (tail probabilities a factor >= 2 apart)");
+                }
+                if gap < 1e-3 && tail_ratio < 2.0 {
                     l.count("level pair closer than 1e-3 in probability (skipped)");
                     continue;
                 }
@@ -433,7 +459,8 @@ fn make_case(seed: u64, i: u64) -> Case {
 
 pub fn run(run: &Arc<Run>) {
     let seed = run.cfg.seed;
-    let levels = level_grid(seed, 8);
+    let mut levels = level_grid(seed, 8);
+    levels.extend(far_tail_levels());
     run.set_rule(
         "9 producers (Arithmetic, Geometric, Harmonic (inside the positivity proviso), Paired, Unpaired for f32/f64; proportion::ci and its front-ends ci_wilson_ratio / Stats::ci / ci_true in rotation, ci_z_normal, quantile::ci_indices, quantile::ci) x seeded admissible inputs x the whole level grid (28 levels incl. dyadic ones, levels < 1/2 and two seeded tail levels) x 3 kinds: \
          (a) one-sided(L) bound = two-sided(2L-1) bound (bit-exact at dyadic L, 1e-12 of the half-width otherwise; ranks exactly), (b) CI(L1) included in CI(L2) for all ordered level pairs at least 1e-3 apart in probability, judged by the crate's includes() and by the extended-real model on the raw bounds, \
